@@ -209,10 +209,10 @@ def judge(path, prop, keys, hdrs):
                         if accepted:
                             cnt("allowed_and_accepted")
                 elif prop == "C03":
-                    shape = ("none-exact" if h == 0 else "none-variant" if h in (16, 17, 18, 33) else
+                    shape = ("none-exact" if h == 0 else "none-variant" if h in (16, 17, 18, 33, 45, 46) else
                              "missing-or-nonstring" if h in (27, 28, 29, 30, 31, 32) else "real-alg" if h < 15 else "other")
                     out["distinct"].add((route, bool(eff_key), eff_alg != NONE, key_alg_value(kalg) != NONE, shape, sk == 0, accepted))
-                    unsigned_tok = (sk == 0) or h in (0, 16, 17, 18, 24, 33)
+                    unsigned_tok = (sk == 0) or h in (0, 16, 17, 18, 24, 33, 45, 46)
                     if sk in (6, 7, 8, 9):
                         cnt("malformed_shape_events")
                         if accepted:
